@@ -188,6 +188,7 @@ def correspondence(ctx):
     slow = sorted(((r.get('seconds', 0), i) for i, r in enumerate(res)), reverse=True)[:3]
     ctx.notes.append('run_cases %.0fs; slowest cases (s, index, #continued): %s' % (_t.time() - _t0, [(a, i, len(cases[i].get('cont', []))) for a, i in slow]))
     c10.explicit_pass(ctx, cases, res)
+    c10.own_report_pass(ctx, cases, res)
     for case, rec in zip(cases, res):
         for cont, one in zip(case.get('cont', []), rec.get('continued', [])):
             ctx.count('continued-searches')
